@@ -203,6 +203,8 @@ pub fn run(ctx: &mut Ctx) -> Result<(), Violation> {
                 Oracle: model is the false leaf iff the table is all-zero; otherwise its table is a single cube (every depended-on variable forced to one polarity), is contained in f's table, tests only variables f depends on, has one path to true, is ordered and reduced; \
                 infer(x, v) == (true,true) iff table(x) => v is valid (checked for the model and for f, for every variable in play plus absent ones). Non-trivial = f non-constant whose diagram has a test with an unsatisfiable true-branch (forces the else-arm); distinct by (table, ids). Operand provenance: created in the environment through mk_choice (default), or - in a share of the random cases and in dedicated stages - plain values that belong to no environment / nodes of another environment (what BDD::<usize>::from(named) and the repository's own parser tests produce)."
         .to_string();
+    ctx.rule.push_str(" Wide stage: ");
+    ctx.rule.push_str(crate::wide::RULE);
     ctx.assume("operands interned via mk_choice; the CLI binary is built from the working tree into /verif/target/repo");
 
     for (k, maps) in [
@@ -239,6 +241,8 @@ pub fn run(ctx: &mut Ctx) -> Result<(), Violation> {
         crate::fun::with_operands(mode, || check_api(&f))
     });
     ctx.stage("api-random-functions-up-to-8-vars", false, r)?;
+    let wc = ctx.tier.cases(6_000, 200_000);
+    crate::wide::stage_model(ctx, "wide-functions", wc)?;
 
     // diagrams that do not come from the extracting environment (plain values such as
     // BDD::<usize>::from(named) produces, or another environment's nodes): all 3- and 4-variable functions
@@ -280,6 +284,9 @@ pub fn run(ctx: &mut Ctx) -> Result<(), Violation> {
 }
 
 pub fn replay(case: &Value) -> Check {
+    if let Some(r) = crate::wide::replay(case) {
+        return r;
+    }
     let f = Fun::from_json(&case["f"]);
     match (case["kind"].as_str(), f) {
         (Some("api"), Some(f)) => crate::fun::with_operands(crate::fun::case_operands(case), || check_api(&f)),
